@@ -144,29 +144,29 @@ def parseMode : String → Option OpenMode
 /-- file operations that are legal while the case is closed -/
 def closedStep (x : Sess) (toks : List String) : Step :=
   match toks with
-  | ["filehash"] => { sess := some x, out := s!"r=ok {fileStr x.file}" }
+  | ["filehash"] => { sess := some x, out := s!"r=ok {fileStr x.whole}" }
   | ["mutate_file", i, v] =>
-    match i.toNat?, v.toNat?, x.fs with
+    match i.toNat?, v.toNat?, x.whole with
     | some i, some v, some f =>
       if i < f.size ∧ v < 256 then
-        let x := { x with fs := some (f.update i (i + 1) (fun _ => UInt8.ofNat v)) }
-        { sess := some x, out := s!"r=ok {fileStr x.fs}" }
+        let x := x.setWhole (some (f.update i (i + 1) (fun _ => UInt8.ofNat v)))
+        { sess := some x, out := s!"r=ok {fileStr x.whole}" }
       else { sess := some x, out := "bad-op" }
     | _, _, _ => { sess := some x, out := "bad-op" }
   | ["truncate_file", n] =>
-    match n.toNat?, x.fs with
+    match n.toNat?, x.whole with
     | some n, some f =>
       let f' := if n ≤ f.size then f.extract 0 n else extendTo f n
-      let x := { x with fs := some f' }
-      { sess := some x, out := s!"r=ok {fileStr x.fs}" }
+      let x := x.setWhole (some f')
+      { sess := some x, out := s!"r=ok {fileStr x.whole}" }
     | _, _ => { sess := some x, out := "bad-op" }
   | ["random_file", seed, n] =>
     match seed.toNat?, n.toNat? with
     | some seed, some n =>
-      let x := { x with fs := some (splitmix (UInt64.ofNat seed) n) }
-      { sess := some x, out := s!"r=ok {fileStr x.fs}" }
+      let x := x.setWhole (some (splitmix (UInt64.ofNat seed) n))
+      { sess := some x, out := s!"r=ok {fileStr x.whole}" }
     | _, _ => { sess := some x, out := "bad-op" }
-  | ["delete_file"] => { sess := some { x with fs := none }, out := "r=ok" }
+  | ["delete_file"] => { sess := some (x.setWhole none), out := "r=ok" }
   | "reopen" :: mode :: rest =>
     match parseMode mode, kv rest "cap", kvNat rest "magic", (kv rest "freelist").bind parseKind,
           kvNat rest "create", kv rest "flavour", kvNat rest "reserved", kvNat rest "minseg" with
@@ -186,20 +186,26 @@ def closedStep (x : Sess) (toks : List String) : Step :=
           | some b, some a => if a.size ≥ b.size ∧ a.extract 0 b.size == b then 1 else 0
           | none, _ => 1
           | some _, none => 0
+        -- a file created by this very open without a capacity has length 0, which is below a non-zero mapping offset:
+        -- the map itself is refused by the OS layer (`InvalidData`), the empty file stays
+        if x.foff > 0 && cap.isNone && x.fs.isNone && create == 1 && (mode == "mut" || mode == "copy") then
+          let x := { x with fs := some #[], fpre := #[] }
+          { sess := some x, out := s!"r=io:InvalidData pk=1 {fileStr x.whole}" }
+        else
         match openFile m oo x.fs with
         | (.error e, fs') =>
-          let pk := pkOf x.fs fs'
-          let x := { x with fs := fs' }
-          { sess := some x, out := s!"r=io:{ioStr e} pk={pk} {fileStr fs'}" }
+          let before := x.whole
+          let x := Sess.padPre { x with fs := fs' }
+          { sess := some x, out := s!"r=io:{ioStr e} pk={pkOf before x.whole} {fileStr x.whole}" }
         | (.ok r, fs') =>
           let opts : Opts := { sync := oo.sync, kind := r.cfg.kind, unify := true, file := true, anon := false,
                                reserved := reserved, cap := x.opts.cap, minSeg := minseg, retries := x.opts.retries,
                                magic := magic }
-          let before := x.fs
-          let x := { x with opts := opts, cfg := r.cfg, st := r.st, handles := [], arenas := [0], refs := 1,
-                            fs := fs', mapping := r.mapping, closed := false, removeOnDrop := false }
+          let before := x.whole
+          let x := Sess.padPre { x with opts := opts, cfg := r.cfg, st := r.st, handles := [], arenas := [0], refs := 1,
+                                        fs := fs', mapping := r.mapping, closed := false, removeOnDrop := false }
           { sess := some x,
-            out := s!"r=ok doff={r.cfg.dataOffset} ro={if r.cfg.ro then 1 else 0} fk={kindStr r.cfg.kind} mv={magic} pk={pkOf before x.file} {fileStr x.file} {stateStr x}" }
+            out := s!"r=ok doff={r.cfg.dataOffset} ro={if r.cfg.ro then 1 else 0} fk={kindStr r.cfg.kind} mv={magic} pk={pkOf before x.whole} {fileStr x.whole} {stateStr x}" }
     | _, _, _, _, _, _, _, _ => { sess := some x, out := "bad-op" }
   | ["flush"] | ["remove_on_drop", _] => { sess := some x, out := "bad-op" }
   | _ => { sess := some x, out := "r=closed" }   -- (this includes `close` of a closed case)
@@ -282,10 +288,10 @@ def step (x : Sess) (toks : List String) : Step :=
       let fs := if x.removeOnDrop then none else x.file
       -- every handle is detached/dropped and every arena value dropped: the memory is released exactly once
       let um := if x.arenas.isEmpty then 0 else 1
-      let x := { x with fs := fs, handles := [], arenas := [], closed := true }
-      { sess := some x, out := s!"r=ok um={um} {fileStr x.fs}" }
+      let x := { x with fs := fs, handles := [], arenas := [], closed := true, fpre := if x.removeOnDrop then #[] else x.fpre }
+      { sess := some x, out := s!"r=ok um={um} {fileStr x.whole}" }
   | ["flush"] => simple x "r=ok"
-  | ["filehash"] => { sess := some x, out := s!"r=ok {fileStr x.file}" }
+  | ["filehash"] => { sess := some x, out := s!"r=ok {fileStr x.whole}" }
   | ["crashcheck"] =>
     -- kill the process between two operations: open the file as it is now and compare with the running arena
     -- (by `C06.boundary` the answer is `ce=1`; it is computed, not assumed)
@@ -496,7 +502,11 @@ partial def loop (h : IO.FS.Stream) (out : IO.FS.Stream) (sess : Option Sess) : 
       | none =>
         -- `Options::alloc` reports `Error::InsufficientSpace`, the map constructors wrap it into `InvalidInput`
         out.putStrLn (if o.file || o.anon then "r=io:InvalidInput" else "r=InsufficientSpace"); loop h out none
-      | some x => out.putStrLn s!"r=ok doff={x.cfg.dataOffset} {stateStr x}"; loop h out (some x)
+      | some x =>
+        -- optional `offset=N`: the file-backed arena is mapped at offset N of its (fresh, zero-filled) file
+        let off := if o.file then (kvNat rest "offset").getD 0 else 0
+        let x := { x with foff := off, fpre := Array.replicate off 0 }
+        out.putStrLn s!"r=ok doff={x.cfg.dataOffset} {stateStr x}"; loop h out (some x)
   | _ =>
     match sess with
     | none => out.putStrLn "r=nocase"; loop h out none
